@@ -30,10 +30,13 @@ type cliCase struct {
 	Out    cfg       `json:"out"`    // sub-command and Phylip output options
 	OutVia string    `json:"out_via"`
 	// Existing: the -o path already exists and is longer than the output: 1 = a file of the same
-	// container (plain/gz/xz) holding a longer content, 2 = plain bytes whatever the extension
+	// container (plain/gz/xz) holding a longer content, 2 = plain bytes whatever the extension,
+	// 3 = lines of stale text (cli.StaleFile)
 	Existing int `json:"existing,omitempty"`
 	// NameStyle: base name of the output file in lower (0), upper (1) or mixed (2) case
 	NameStyle int `json:"name_style,omitempty"`
+	// Layout: presentation of a FASTA input (wrapping, blanks, CRLF, empty lines, no final newline)
+	Layout cli.Layout `json:"layout"`
 	// Reread: the output file is given to a second goalign reformat fasta -i <file>
 	Reread bool `json:"reread,omitempty"`
 }
@@ -63,6 +66,13 @@ func genCLI(t *rapid.T) cliCase {
 		}
 	}
 	c.Long = rapid.Bool().Draw(t, "long")
+	if c.In.Format == "fasta" {
+		c.Layout = cli.DrawLayout(t)
+		if c.Auto {
+			// auto-detection looks at the first byte, which must be '>'
+			c.Layout.Empty = false
+		}
+	}
 	c.InVia = rapid.SampledFrom([]string{"file", "file", "stdin", ".gz", ".xz"}).Draw(t, "invia")
 	c.OutVia = rapid.SampledFrom([]string{"stdout", "stdout", "stdout", "file", "file", ".gz", ".gz", ".xz", ".xz", "lookalike"}).Draw(t, "outvia")
 	if c.OutVia == "lookalike" {
@@ -72,7 +82,7 @@ func genCLI(t *rapid.T) cliCase {
 	// the output file is read again by goalign itself (a pipeline through files)
 	c.Reread = c.OutVia != "stdout" && rapid.IntRange(0, 2).Draw(t, "reread") == 0
 	if c.OutVia != "stdout" {
-		c.Existing = rapid.SampledFrom([]int{0, 0, 0, 0, 1, 2}).Draw(t, "existing")
+		c.Existing = rapid.SampledFrom([]int{0, 0, 0, 0, 0, 1, 2, 3}).Draw(t, "existing")
 	}
 	d := domOf(c.In, c.Out)
 	for i := 0; i < k; i++ {
@@ -117,7 +127,11 @@ func has(list []string, s string) bool {
 func checkCLI(c cliCase) (o pbt.Outcome, err error) {
 	if !has(cliOut, c.Out.Format) || !has(cliIn, c.In.Format) || !c.In.valid() || !c.Out.valid() || len(c.Alis) == 0 ||
 		!has([]string{"file", "stdin", ".gz", ".xz"}, c.InVia) || !(c.OutVia == "stdout" || c.OutVia == "file" || (c.OutVia != "" && validExt(c.OutVia))) || (c.Reread && c.OutVia == "stdout") ||
-		(c.Auto && (c.In.Format == "stockholm" || c.In.Strict)) || c.Existing < 0 || c.Existing > 2 || (c.Existing != 0 && c.OutVia == "stdout") {
+		(c.Auto && (c.In.Format == "stockholm" || c.In.Strict)) || c.Existing < 0 || c.Existing > 3 || (c.Existing != 0 && c.OutVia == "stdout") {
+		o.Skip = true
+		return o, nil
+	}
+	if !c.Layout.Plain() && (c.In.Format != "fasta" || (c.Auto && c.Layout.Empty) || c.Layout.Width < 0 || c.Layout.Blocks < 0) {
 		o.Skip = true
 		return o, nil
 	}
@@ -153,6 +167,10 @@ func checkCLI(c cliCase) (o pbt.Outcome, err error) {
 		}
 		want = []model{m}
 		text = writeText(al, c.In)
+		if c.In.Format == "fasta" && !c.Layout.Plain() {
+			// the same content in another presentation of the FASTA format
+			text = cli.FastaLayout(m.Rows, c.Layout)
+		}
 	}
 	// documented: reformat fasta takes the first alignment only; reformat phylip all of them
 	if c.Out.Format != "phylip" {
@@ -223,15 +241,23 @@ func checkCLI(c cliCase) (o pbt.Outcome, err error) {
 		if c.Existing != 0 {
 			old := strings.Repeat(priorContent(text), 2)
 			var content []byte
-			if c.Existing == 1 {
+			switch c.Existing {
+			case 1:
 				content = compress(old, outExt)
-			} else {
+			case 2:
 				content = []byte(old)
 			}
-			if e := os.WriteFile(outPath, content, 0o644); e != nil {
-				return o, fmt.Errorf("harness: %v", e)
+			if c.Existing == 3 {
+				cli.StaleFile(outPath, len(old)/64+2)
+				if st, e := os.Stat(outPath); e == nil {
+					existingSize = int(st.Size())
+				}
+			} else {
+				if e := os.WriteFile(outPath, content, 0o644); e != nil {
+					return o, fmt.Errorf("harness: %v", e)
+				}
+				existingSize = len(content)
 			}
-			existingSize = len(content)
 		}
 	}
 	r := cli.Run(stdin, args...)
@@ -353,6 +379,13 @@ func checkCLI(c cliCase) (o pbt.Outcome, err error) {
 	}
 	o.Class("%s -> %s", in, c.Out.Format)
 	o.Class("input via %s", c.InVia)
+	if c.In.Format == "fasta" {
+		if c.Layout.Plain() {
+			o.Class("fasta input: writer's layout")
+		} else {
+			o.Class("fasta input: other layout (wrapping/blanks/CRLF/empty lines/no final newline)")
+		}
+	}
 	o.Class("output via %s", outKind(c.OutVia))
 	o.Class("alignments in the input: %d", len(c.Alis))
 	if c.In.Strict {
